@@ -23,6 +23,7 @@ import Ymq.Lemmas.PolySelectNever
 import Ymq.Lemmas.PolyMpqs
 import Ymq.Lemmas.PolyMpqsTotal
 import Ymq.Lemmas.PolyQs
+import Ymq.Gen.CallSites
 
 namespace Ymq.C12
 open Ymq.SiqsPoly Ymq.PolySiqs
@@ -237,7 +238,8 @@ theorem poly_exact (n : Int) (fb : List Prime) (f : Factors) (a mm idx : Nat) (p
 prime `p = fb[i].p` of the factor base, with `P = polyVal pol` and `x` any sieve position:
 * `p ∤ a2a` (odd `p ∤ A`; also `p = 2` for type 1): `p ∣ P(x + so) ⟺ x ≡ r1p[i] ∨ x ≡ r2p[i] (mod p)`;
 * odd `p ∣ A`: `r1p[i] = r2p[i] < p` and `p ∣ P(x + so) ⟺ x ≡ r1p[i] (mod p)`;
-* `p = 2` at index 0, type 2, `A` odd: `2 ∣ P(x + so) ⟹ x ≡ r1p[0] ∨ x ≡ r2p[0] (mod 2)` (superset). -/
+* `p = 2` at index 0, type 2, `A` odd: `2 ∣ P(x + so) ⟹ x ≡ r1p[0] ∨ x ≡ r2p[0] (mod 2)` (superset).
+Families with at least one factor (`hne`); the unit polynomial `A = 1` is `roots_exact_unit`. -/
 theorem roots_exact (n : Int) (fb : List Prime) (f : Factors) (a mm idx : Nat) (pa : APrep) (pol : Poly)
     (hfb : FbOk n fb) (hn : f.n = n) (hmm : mm < 2 ^ 32)
     (hpa : prepareA f a fb (-((mm : Int) / 2)) = some pa) (hne : pa.factors.isEmpty = false)
@@ -707,6 +709,37 @@ set_option exponentiation.threshold 1100 in
 example : (1 : Nat) < 211 ∧ 211 % 2 = 1 ∧ 211 < 2 ^ 127 ∧ 58 < 211 ∧ 58 * 58 % 211 = 1000003000009 % 211 ∧
     58 * 58 ≤ 1000003000009 ∧ Nat.gcd (2 * 58) 211 = 1 ∧ Nat.gcd 211 1000003000009 = 1 ∧
     1000003000009 < 2 ^ 254 * (211 * 211) := by decide
+
+open Ymq.MpqsPoly Ymq.PolyMpqs in
+/-- `sieve_for_polys_sound`: every pair `(D, r)` returned by `sieve_for_polys(n, bmin, width)` (any width) has
+`bmin ≤ D < bmin + width`, `D ≡ 3 (mod 4)`, `r² ≡ n (mod D)`, `gcd(n mod D, D) = 1`, and no small prime `p < 200` divides
+`D` except possibly `D = p` itself below `bmin`'s reach (`bmin ≤ p` and `D < 2p`): exactly the hypotheses
+`make_poly_total` and `hensel_lift` need (with `D` odd since `D ≡ 3 mod 4`). -/
+theorem sieve_for_polys_sound (n bmin width : Nat) : ∀ dr ∈ sieveForPolys n bmin width,
+    bmin ≤ dr.1 ∧ dr.1 < bmin + width ∧ dr.1 % 4 = 3 ∧ dr.2 * dr.2 % dr.1 = n % dr.1 ∧
+    Nat.gcd (n % dr.1) dr.1 = 1 ∧
+    (∀ p ∈ Ymq.Gen.Primality.smallPrimes, p ∣ dr.1 → ¬ (bmin > p ∨ dr.1 ≥ 2 * p)) :=
+  sieveForPolys_sound n bmin width
+
+open Ymq.MpqsPoly in
+example : sieveForPolys 1000003000009 150 100 = [(151, 49), (179, 110), (191, 20), (199, 50), (211, 58), (227, 195)] := by
+  decide +kernel
+
+open Ymq.Gen.CallSites in
+/-- `callsite_offsets`: the start offsets at the call sites the harness cannot reach — `sieve_a` → `prepare_a`,
+`siqs_sieve_poly` → `Sieve::new`, `SieveSIQS::new` → `offset_modp`, `mpqs_poly` → `prepare_prime`/`Sieve::new`
+(expressions translated from the source, `translate/callsites.py`, which also pins the Gray-walk loop of `sieve_a`, the
+chunks of 16 and `dinv_modp[idx]` of `process_poly_block`/`mpqs_poly` and the set-up loops of `qsieve()`) — all equal
+`−⌊M/2⌋`, the offset `so` of every theorem here (`(mkSieve n M).startOffset`). -/
+theorem callsite_offsets (n : Int) (mm : Nat) :
+    siqsPrepareOffset mm = -((mm : Int) / 2) ∧ siqsSieveOffset mm = -((mm : Int) / 2) ∧
+    siqsContextOffset mm = -((mm : Int) / 2) ∧ mpqsOffset mm = -((mm : Int) / 2) ∧
+    (mkSieve n mm).startOffset = -((mm : Int) / 2) ∧ mpqsChunk = 16 := by
+  have h1 : Int.tdiv (-(mm : Int)) 2 = -((mm : Int) / 2) := by
+    rw [Int.neg_tdiv, Int.tdiv_eq_ediv_of_nonneg (by omega)]
+  have h2 : -(Int.tdiv (mm : Int) 2) = -((mm : Int) / 2) := by
+    rw [Int.tdiv_eq_ediv_of_nonneg (by omega)]
+  exact ⟨h1, h1, h2, h1, rfl, rfl⟩
 
 open Ymq.MpqsPoly Ymq.PolyMpqs in
 /-- `prepare_prime_exact`: all three branches of `Poly::prepare_prime`, for a polynomial returned by
